@@ -537,6 +537,11 @@ impl Profile for Misdeliver {
             let Some((doc, _)) = doc_of_kind(rng, &mut tg, &c, k1) else { continue };
             let msg = Doc::json(&doc);
             let op = match k2 {
+                // sometimes the contract sends the document to its own execute entry point
+                Kind::Exec if rng.chance(1, 3) && reg.get(&c.cid).map(|e| e.spec.of_kind(Kind::Exec).any(|h| h.fn_name == "go") && !e.spec.overrides.contains(&Kind::Exec)).unwrap_or(false) => {
+                    let script = json!([{"send": {"msg": {"exec": {"peer": c.addr, "ty": "", "method": "", "args": sylvia::cw_std::Binary::from(msg.0.clone()).to_base64(), "funds": null, "form": 0, "slot": null}}, "reply": "none", "gas_limit": null}}]);
+                    Op::Exec { target: c.addr.clone(), sender: rng.pick(accounts).clone(), msg: Doc::json(&json!({"go": {"script": script}})), funds: vec![], intent: None }
+                }
                 Kind::Exec => Op::Exec { target: c.addr.clone(), sender: rng.pick(accounts).clone(), msg, funds: vec![], intent: None },
                 Kind::Query => Op::Query { target: c.addr.clone(), msg, intent: None },
                 Kind::Sudo => Op::Sudo { target: c.addr.clone(), msg, intent: None },
